@@ -70,6 +70,8 @@ static void on_write(SimSocket* s, const uint8_t* buf, int n) { static char h[60
     { int hh = hid_of_sock[s->id]; if (n == 6 && buf[2] == 0x43 && hh >= 0 && hh < 4096 && tf_sent_at[hh] == 0) tf_sent_at[hh] = sim_time(); }
     if (slave && slave->serverMode == CS104_MODE_SINGLE_REDUNDANCY_GROUP && n > 6 && (buf[2] & 1) == 0) evq_seen(hid_of_sock[s->id], buf + 6, n - 6); }
 static int kwin_fail = 0; static char kwin_info[300];
+/* ---- C06 oracle (model-free): a queue created for N entries holds at least the N most recent of equal-size events ---- */
+static int retain_fail = 0; static char retain_info[400]; static long n_retain_checks = 0;
 /* ---- C04 oracle (model-free): the reaction to an S-format APDU, judged from the wire alone: N(R) is valid exactly when it
  * lies between the N(S) of the oldest I-frame the peer has not acknowledged yet and the next N(S), modulo 32768 ---- */
 static int ack_fail = 0; static char ack_info[400]; static long n_ack_valid = 0, n_ack_invalid = 0;
@@ -415,6 +417,27 @@ static void episode(bool thorough)
     op_start();
     int nh = 0, hs[32];
     int steps = thorough ? 400 : 120;
+    /* scripted (C06): with no client connected, 2N+3 events of one size are enqueued into the queue created for N entries:
+     * after every enqueue the queue must hold at least min(enqueued, N) entries and they must be the most recent ones */
+    if (mode != 1 && prng_below(5) == 0) { uint8_t a[260]; int len = hdr + prng_range(1, 249 - hdr), total = 2 * lowq + 3, first = evq_cnt;
+        if (prng_below(3) == 0) len = 249;
+        for (int e = 0; e < total; e++) {
+            for (int i = 0; i < len; i++) a[i] = (uint8_t) prng_next(); a[0] = 30; a[1] = 1; a[2] = 3;
+            op_enq(a, len); n_retain_checks++;
+            MessageQueue q = slave->serverMode == CS104_MODE_SINGLE_REDUNDANCY_GROUP ? slave->asduQueue : NULL;
+            if (!q && slave->redundancyGroups) { LinkedList le = LinkedList_getNext(slave->redundancyGroups); if (le) q = ((CS104_RedundancyGroup) LinkedList_getData(le))->asduQueue; }
+            if (!q) break;
+            int want = e + 1 < lowq ? e + 1 : lowq; const char* why = NULL; int have = q->entryCounter;
+            if (have < want) why = "fewer entries than the queue was created for";
+            else { /* walk to the last `want` entries and compare them with the most recent `want` enqueued */
+                uint8_t* p = q->firstEntry; int idx = 0, guard = 0;
+                while (p && guard++ < 100000) { struct sMessageQueueEntryInfo ei; memcpy(&ei, p, sizeof ei);
+                    int k2 = first + (e + 1 - have) + idx;          /* enqueue position this entry must be, if what is kept is the most recent run */
+                    if (idx >= have - want) { int m = ei.size > 64 ? 64 : ei.size; if (k2 < 0 || k2 >= 8192 || evq_n[k2] != ei.size || memcmp(evq_b[k2], p + sizeof ei, m)) { why = "the entries kept are not the most recent ones in order"; break; } }
+                    idx++; if (p == q->lastEntry) break; p = (p == q->lastInBufferEntry) ? q->buffer : p + sizeof ei + ei.size; }
+                if (!why && idx != have) why = "the walk from the first to the last entry does not visit entryCounter entries"; }
+            if (why && !retain_fail++) snprintf(retain_info, sizeof retain_info, "at ops-file offset %ld: queue created for %d entries, %d events of %d octets enqueued, %d entries held: %s", (long) ftell(ops), lowq, e + 1, len, have, why);
+        } }
     /* scripted (C08): a started connection in a slot ABOVE the number of open connections: A, B, C connect from one address,
      * C is started, A and B close, D takes slot 0 and sends STARTDT act - C must be deactivated */
     if (prng_below(5) == 0) { uint8_t f[8]; char peer[80]; const char* ip = IPS[prng_below(6)];
@@ -541,10 +564,11 @@ int main(int argc, char** argv)
     if (wire_fail) printf("WIRE_FAIL %s\n", wire_info);
     if (kwin_fail) printf("KWIN_FAIL %s\n", kwin_info);
     if (ack_fail) printf("ACK_FAIL %s\n", ack_info);
+    if (retain_fail) printf("RETAIN_FAIL %s\n", retain_info);
     if (life_fail) printf("LIFE_FAIL %s\n", life_info);
     if (t1_fail) printf("T1_FAIL %s\n", t1_info);
     if (group_fail) printf("GROUP_FAIL %s\n", group_info);
     if (queue_fail) printf("QUEUE_FAIL %s\n", queue_info);
-    printf("HISTO life_violations=%d group_violations=%d queue_violations=%d iframes_tx=%ld wire_violations=%d kwin_violations=%d ack_probes_valid=%ld ack_probes_invalid=%ld ack_violations=%d replies_tracked=%ld order_violations=%d tx=%ld events=%ld asdu_callbacks=%ld closed=%ld iframes_rx=%ld sem_waits=%ld sem_max=%d sem_violations=%d deadlock=%d live_sem=%d live_sock=%d %s\n", life_fail, group_fail, queue_fail, n_iframes_tx, wire_fail, kwin_fail, n_ack_valid, n_ack_invalid, ack_fail, n_replies_tracked, order_fail, n_tx, n_ev, n_asdu, n_closed, n_iframes_rx, sim_sem_waits, sim_sem_max_value, sim_sem_violations, sim_deadlock, sim_live_semaphores, sim_live_sockets, sim_sem_violation_where);
+    printf("HISTO life_violations=%d group_violations=%d queue_violations=%d iframes_tx=%ld wire_violations=%d kwin_violations=%d ack_probes_valid=%ld ack_probes_invalid=%ld ack_violations=%d retain_checks=%ld retain_violations=%d replies_tracked=%ld order_violations=%d tx=%ld events=%ld asdu_callbacks=%ld closed=%ld iframes_rx=%ld sem_waits=%ld sem_max=%d sem_violations=%d deadlock=%d live_sem=%d live_sock=%d %s\n", life_fail, group_fail, queue_fail, n_iframes_tx, wire_fail, kwin_fail, n_ack_valid, n_ack_invalid, ack_fail, n_retain_checks, retain_fail, n_replies_tracked, order_fail, n_tx, n_ev, n_asdu, n_closed, n_iframes_rx, sim_sem_waits, sim_sem_max_value, sim_sem_violations, sim_deadlock, sim_live_semaphores, sim_live_sockets, sim_sem_violation_where);
     return 0;
 }
